@@ -1,4 +1,4 @@
-import ScriggoV.Lemmas.LexerPos9
+import ScriggoV.Lemmas.LexerPosCode
 import ScriggoV.Props.C04
 /-! # C21 — build errors point at a real location in the reported file
 
@@ -18,7 +18,8 @@ and, without any hypothesis on the bytes (`_partial`: the sub-scanners named in 
                              and `/* */` comments advances line and column exactly as the specification;
 * `lexComment_positions`     a `{# … #}` comment (nested, multi-line, any bytes) gets the position of
                              its start offset and leaves the lexer at the position of its end;
-* `skipRawContent_positions` the content of `{% raw %}` leaves the lexer at the right position.
+* `skipRawContent_positions` the content of `{% raw %}` leaves the lexer at the right position;
+* `blockComment_positions`   a `/* … */` comment in a code region (a first piece of `CodePosSpec`).
 Covered by the correspondence harness and the Go oracles only: `lexCode` and its literal lexers
 (hypothesis `CodePosSpec` of the main theorem), the shebang line.
 
@@ -115,6 +116,14 @@ theorem positions_consistent_partial (U : Unicode) (format : Nat) (nps : Bool) (
   refine ⟨fun t hm hne => ?_, fun err he => ?_⟩
   · rw [lineCol_of_noBOM hbom]; exact h1 t hm hne
   · rw [lineCol_of_noBOM hbom]; exact h2 err he
+
+/-- `blockComment_positions` (partial: the `/* … */` branch of `lexCode`, a first discharged piece of
+`CodePosSpec`): after a block comment in a code region — any bytes, any number of newlines,
+multi-byte characters — the lexer's line and column are those of the offset after the comment:
+columns are counted per character, not per byte -/
+theorem blockComment_positions_partial (E : Env) (st st' : St) (loc loc' : CodeLoc)
+    (h : codeSlash E st loc (some 0x2a) = .ok (.cont st' loc')) (hp : PosAt E st st.base) : PosAt E st' st'.base :=
+  blockComment_pos h hp
 
 /-- ASCII text is aligned -/
 theorem aligned_of_ascii {t : Bytes} (h : ∀ b ∈ t, b < 0x80) : Aligned t := by
